@@ -57,7 +57,7 @@ DOMAIN = {
     "sort_reverse": [True, False],
     "varname_filter": [r"q\d+", r".+", r"[a-z]+\d*"],
 }
-BAD_KEYS = ["nope", "display_gradedd", "sort", "Retain_names", "defaults"]
+BAD_KEYS = ["nope", "display_gradedd", "sort", "Retain_names", "defaults", "options", "kwargs", "self", "key", "value", "args"]  # (incl. names a helper's own parameters might have)
 
 _DEFAULTS: Optional[dict] = None
 
@@ -163,7 +163,7 @@ def _random_body(ch: core.Chooser, depth: int, budget_: List[int]) -> List[dict]
             (5 if depth < 4 else 0, "block"), (4, "set"), (2, "set_invalid"), (2, "enter_invalid"), (1, "set_badvalue"), (2, "get_mutate"),
             (2 if depth else 0, "raise"), (3, "op"), (2 if depth else 0, "op_fault"), (3 if depth < 4 else 0, "catch"),
             (1 if depth else 0, "leave"), (2 if depth < 4 else 0, "genblock"), (1 if depth < 4 else 0, "decorated"),
-            (1 if depth < 4 else 0, "reuse"),
+            (1 if depth < 4 else 0, "reuse"), (1 if depth == 0 else 0, "deep"),
         ])
         if kind == "block":
             node = {"k": "block", "kw": _kw(c.sub("kw"), 0, 3), "body": _random_body(c.sub("b"), depth + 1, budget_)}
@@ -193,6 +193,8 @@ def _random_body(ch: core.Chooser, depth: int, budget_: List[int]) -> List[dict]
         elif kind == "genblock":
             body.append({"k": "genblock", "kw": _kw(c.sub("kw"), 0, 3), "body": _random_body(c.sub("b"), depth + 1, budget_),
                          "end": c.choice(["close", "throw", "exhaust"]), "exc": c.choice(EXC_NAMES)})
+        elif kind == "deep":
+            body.append({"k": "deep", "kw": _kw(c.sub("kw"), 1, 3), "inner": _kw(c.sub("in"), 1, 2), "span": 45, "raise": c.chance(0.3)})
         elif kind == "reuse":
             body.append({"k": "reuse", "kw": _kw(c.sub("kw"), 1, 3), "mode": c.choice(["nested", "sequential", "recursive"]),
                          "inner": [_kw(c.sub("in", j), 1, 2) for j in range(c.between(2, 3))]})
@@ -404,6 +406,8 @@ class Interp:
             return self._decorated(node)
         if k == "reuse":
             return self._reuse(node)
+        if k == "deep":
+            return self._deep(node)
         raise core.HarnessError(f"unknown node kind {k}")
 
     def _sync_if_bad(self) -> None:
@@ -527,6 +531,59 @@ class Interp:
                 self.model = snapshot2
                 self.check(nid, "after-second-decorated-exit", "global_options")
                 self._sync_if_bad()
+        return None
+
+    def _deep(self, node: dict) -> Optional[str]:
+        """Stack exhaustion as a fault: the block is opened a few frames below the recursion limit, for every
+        distance in a window, so that for some distance the entry still fits and anything the exit path does at a
+        greater depth does not.  Whatever is raised, the options afterwards are those before the block."""
+        import sys
+
+        nid = node.get("id")
+        self.nontrivial = True
+        np_ = self.np
+        kw, inner = node["kw"], node["inner"]
+        snapshot = dict(self.model)
+
+        def depth_now() -> int:
+            frame, n = sys._getframe(), 0
+            while frame is not None:
+                n += 1
+                frame = frame.f_back
+            return n
+
+        def descend(d: int) -> None:
+            if d > 0:
+                return descend(d - 1)
+            with np_.global_options(**kw):
+                np_.set_options(**inner)
+                if node.get("raise"):
+                    raise ValueError("simulated")
+
+        old = sys.getrecursionlimit()
+        fired = 0
+        for extra in range(node.get("span", 45)):
+            sys.setrecursionlimit(depth_now() + 24 + extra)
+            try:
+                descend(20)
+            except RecursionError:
+                fired += 1
+            except ValueError:
+                pass
+            finally:
+                sys.setrecursionlimit(old)
+            self.model = dict(snapshot)
+            self.check(nid, "after-deep-block", "global_options")
+            if self.violations:
+                self.resync()
+                try:
+                    np_.set_options(**snapshot)
+                    self.model = dict(snapshot)
+                except BaseException:  # noqa: BLE001
+                    pass
+                break
+        self.bump("fault:recursion_limit.fired", fired)
+        self.bump("fault:recursion_limit.configured", node.get("span", 45))
         return None
 
     def _reuse(self, node: dict) -> Optional[str]:
